@@ -373,7 +373,11 @@ pub fn run_c01(outdir: &str, seed: u64, thorough: bool) -> serde_json::Value {
 /// query computing the same statistics directly (population variance for VAR / STD)
 fn gen_exact_query(r: &mut Rng) -> (String, String, Vec<String>, Vec<String>, Vec<String>) {
     // (from, numeric columns, keys, from clause exposing the unit, unit expression)
-    let (from, nums, keys, ufrom, unit): (&str, Vec<&str>, Vec<&str>, &str, &str) = match r.below(5) {
+    let (from, nums, keys, ufrom, unit): (&str, Vec<&str>, Vec<&str>, &str, &str) = match r.below(8) {
+        // outer joins of two tracked tables: the rows of the preserved side without a match are aggregated too
+        5 => ("items AS t RIGHT JOIN orders AS o ON t.order_id = o.id", vec!["o.amount", "t.price"], vec!["o.status"], "items AS t RIGHT JOIN orders AS o ON t.order_id = o.id", "o.user_id"),
+        6 => ("orders AS t LEFT JOIN items AS i ON i.order_id = t.id", vec!["t.amount", "i.price"], vec!["t.status"], "orders AS t LEFT JOIN items AS i ON i.order_id = t.id", "t.user_id"),
+        7 => ("orders AS t RIGHT JOIN users AS u ON t.user_id = u.id", vec!["u.age", "t.amount", "u.income"], vec!["u.city"], "orders AS t RIGHT JOIN users AS u ON t.user_id = u.id", "u.id"),
         0 => ("users AS t", vec!["t.age", "t.income", "t.score"], vec!["t.city", "t.age"], "users AS t", "t.id"),
         1 => ("orders AS t", vec!["t.amount"], vec!["t.status", "t.user_id"], "orders AS t", "t.user_id"),
         2 => ("items AS t", vec!["t.price", "t.qty"], vec!["t.qty"], "items AS t JOIN orders AS zz ON t.order_id = zz.id", "zz.user_id"),
